@@ -82,30 +82,139 @@ theorem closeFile_licence_fat {gh : Ghost} {files : List FileInfo} {dirs : List 
     (h : LicenceFor gh files dirs d (.closeFile hd) L) : L.fatClusters = [] := by
   cases h with
   | nothing => rfl
-  | closeFile _ f hf hh hdirty => rfl
+  | closeFile _ f hf hh hdirty i hidx hfi => rfl
 
-/-! ### `close_file` establishes `Kept` -/
+/-! ### `flush_file` / `close_file` establish `Kept` -/
+
+/-- The common part: after a successful `flush_file` / `close_file` of the dirty file `f` (abstract record `af`), if the
+abstract state after the call has the stored entry in the slot and every handle at the slot is clean or satisfies `P`,
+where `P` of a handle's pending entry means that its record is `f.entry` and the file owns a cluster, the state after
+the call is `Kept`. -/
+theorem establish_kept {v0 : FatVolume} {s : Mgr} {gh : Ghost} (hI : VolInv s gh) (hm : Mirror gh.vol s.dev.disk)
+    (hraw : RawOK gh.vol.fatType s.dev.disk s.files) (hg : SameGeom v0 gh.vol) {hd i : Nat} {f : FileInfo}
+    (hidx : s.files.findIdx? (·.rawFile = hd) = some i) (hf : s.files[i]? = some f) (hdirty : f.dirty = true) {op : Op}
+    (hop : op = .flush hd ∨ op = .closeFile hd)
+    (hFl : FlushedOn gh.vol (step s op).1.dev.disk f.entry (chainOf gh.G f.entry.cluster))
+    {gh1 : Ghost} {a1 : AbsFs} (hI1 : VolInv (step s op).1 gh1) (hg1 : SameGeom v0 gh1.vol) (hA1 : Abs (step s op).1 gh1 a1)
+    {af : OpenFile} (hdir : af.dir ∈ dirIds gh.dirs) {o : Slot}
+    (ho : (beforeEnd (dirSlots gh.vol s.dev.disk gh.G af.dir))[af.idx]? = some o) (hpo : spos o = fkey f)
+    (hpm : af.pm = Spec.AbsFs.view f.entry) {bytes : Bytes} {P : Spec.AbsFs.Meta → Prop}
+    (hk1 : KeepsA a1 af.dir af.idx (storedMeta af.pm) bytes P)
+    (hP : ∀ g, g ∈ (step s op).1.files → fkey g = fkey f → P (Spec.AbsFs.view g.entry) → g.entry = f.entry ∧ f.entry.cluster ≠ 0)
+    {ys : List Slot} (hPath : PathOn gh.vol.fatType gh.dirs (dirSlots gh.vol s.dev.disk gh.G) 0 ys af.dir)
+    (hPN : ∀ y, y ∈ ys → sName y ≠ Sfn.thisDir ∧ sName y ≠ Sfn.parentDir) :
+    Kept v0 f.entry (chainOf gh.G f.entry.cluster) ys af.dir (step s op).1 gh1 ∧
+    (beforeEnd (dirSlots gh1.vol (step s op).1.dev.disk gh1.G af.dir))[af.idx]? = some (slotOf gh.vol.fatType f.entry) := by
+  have hM := medX_of_med hI.med
+  have hfm : f ∈ s.files := List.mem_of_getElem? hf
+  obtain ⟨hst, hn0, hn5, hlfn, hplain, _⟩ := file_entry_facts hI hfm
+  have hgg : SameGeom gh.vol gh1.vol := hg.symm.trans hg1
+  have hh1 : af.dir ∈ dirIds gh1.dirs := by rw [← hA1.ids]; exact hk1.ids
+  -- the licence of the call names no FAT entry
+  obtain ⟨L, hSL⟩ := step_callOK hI hm op (nameCovered_all op)
+  obtain ⟨hfat, _, _, _⟩ := reflush_licence hop hidx hf hSL.lic
+  have hwf : LicWF gh.vol L := licenceFor_wf hI hSL.lic
+  have hF : ∀ b i', ¬ Covers gh.vol L b i' →
+      ((step s op).1.dev.disk.get b).getD i' 0 = (s.dev.disk.get b).getD i' 0 := by
+    intro b i' hcov
+    rw [hSL.disk b]
+    exact allLicensed_frame hcov _ _ hSL.all
+  -- the chains of the directories have only grown
+  have hpreAll : ∀ q, q ∈ dirIds gh.dirs → q ∈ dirIds gh1.dirs → dirChain gh.vol gh.G q <+: dirChain gh1.vol gh1.G q := by
+    intro q hq hq1
+    rw [dirChain_sameGeom hgg]
+    by_cases hfx : isFixedRoot gh.vol q
+    · unfold dirChain; rw [if_pos hfx, if_pos hfx]; exact List.prefix_refl _
+    · have hf' : ¬ isFixedRoot gh1.vol q := by unfold isFixedRoot at hfx ⊢; rw [hgg.fatType]; exact hfx
+      have hM1 := medX_of_med hI1.med
+      obtain ⟨m1, d1⟩ := dirChain_spec hM hq hfx
+      obtain ⟨m2, d2⟩ := dirChain_spec hM1 hq1 hf'
+      have c1 := med_chain hM m1
+      have c2 := med_chain hM1 m2
+      rw [headD_of_head? d1] at c1
+      rw [headD_of_head? d2] at c2
+      have c2' : Chain gh.vol (step s op).1.dev.disk (dirHead gh.vol q) (chainOf gh1.G (dirHead gh.vol q)) := by
+        have := ForestBase.chain_sameGeom hgg.symm c2
+        have hdh : dirHead gh1.vol q = dirHead gh.vol q := by
+          obtain ⟨x, y, hv⟩ := hgg
+          rw [hv]; rfl
+        rw [hdh] at this
+        exact this
+      have hdc1 : dirChain gh.vol gh.G q = chainOf gh.G (dirHead gh.vol q) := by unfold dirChain; rw [if_neg hfx]
+      have hdc2 : dirChain gh.vol gh1.G q = chainOf gh1.G (dirHead gh.vol q) := by unfold dirChain; rw [if_neg hfx]
+      rw [hdc1, hdc2]
+      refine chain_prefix c1 c2' fun c hc => ?_
+      have hcr : InRange gh.vol c := med_inRange hM m1 (List.dropLast_subset _ hc)
+      exact ForestBase.nextOf_congr rfl (fatRaw_of_frame hI.med.geom hwf hF hcr (by rw [hfat]; exact List.not_mem_nil))
+  have hpre : dirChain gh.vol gh.G af.dir <+: dirChain gh1.vol gh1.G af.dir := hpreAll af.dir hdir hh1
+  -- the way to the directory is still there
+  have hpath1 : PathOn gh1.vol.fatType gh1.dirs (dirSlots gh1.vol (step s op).1.dev.disk gh1.G) 0 ys af.dir := by
+    refine pathOn_next hgg (TreeView.of_treeOK hI.med.tree) (TreeView.of_treeOK hI1.med.tree) hpreAll ?_ hPath hPN
+      (zero_mem_dirIds _)
+    intro y hy
+    obtain ⟨q, hq, hyo, hyd⟩ := hPath.entry y hy
+    have hDO : DirObj s gh q y := ⟨hq, hyo, hyd⟩
+    have hnnd := licence_notNamed_dir hI hDO hSL.lic
+    have hyreg : regionOf gh.vol y.1 = .root ∨ regionOf gh.vol y.1 = .data := by
+      rcases dirSlot_not_fat hM hq hDO.memSlots with h1 | h1
+      · exact .inr h1
+      · exact .inl h1
+    have hyoff : y.2.1 % 32 = 0 := by
+      have hm' := hDO.memSlots
+      rw [dirSlots_eq] at hm'
+      split at hm'
+      · obtain ⟨i', _, hi'⟩ := slot_offset hm'; omega
+      · obtain ⟨c, _, hrun⟩ := mem_chainSlots.1 hm'
+        obtain ⟨i', _, hi'⟩ := slot_offset hrun; omega
+    have hsp : ∀ L', L' ∈ [L] → Spares gh.vol L' y.1 y.2.1 [] := by
+      intro L' hL'
+      rw [List.mem_singleton.1 hL']
+      exact spares_of_avoids hI.med.geom (fun c hc => nomatch hc) hyreg hyoff (avoids_of hwf hnnd)
+    rw [(spared_at hI.med.blocksOK hI1.med.blocksOK (fun b i' hcov => hF b i' (hcov L List.mem_cons_self)) y.1 y.2.1 [] hsp).1]
+    exact (dirSlots_bytes (mem_of_mem_objects hyo)).symm
+  -- the slot, with its new bytes, in its directory
+  have hxm1 : slotOf gh.vol.fatType f.entry ∈ dirSlots gh1.vol (step s op).1.dev.disk gh1.G af.dir := by
+    refine mem_dirSlots_at hgg (AbsFs.mem_of_beforeEnd_getElem? ho) hpo.symm ?_ hpre
+    show slice ((step s op).1.dev.disk.get f.entry.entryBlock) f.entry.entryOffset 32 = f.entry.serialize gh.vol.fatType
+    exact hFl.slot
+  obtain ⟨hsn, hfi, _, h4, h5⟩ := slotOf_fields gh.vol.fatType f.entry hst
+  obtain ⟨hobj1, hj1, hq1⟩ := obj_of_keepsA hI1 hA1 hk1 hxm1 (by rw [hfi]; exact hn0) (slotOf_keep _ _ hst hn5 hlfn)
+    (by rw [slotOf_isDir _ _ hst]; exact hplain) (by rw [hsn, storedMeta_name, hpm]; rfl)
+    (fun g hgm hkey hPg => by
+      obtain ⟨hge, _⟩ := hP g hgm hkey hPg
+      rw [hgg.fatType, hge]; exact ⟨h4, h5⟩)
+  have hraw1 : RawOK gh1.vol.fatType (step s op).1.dev.disk (step s op).1.files := by
+    rw [hgg.fatType]
+    exact (VolCrash.step_stepC hI hraw op (nameCovered_all op)).raw
+  refine ⟨⟨hI1, (hgg.mirror _).2 hSL.mirror, hraw1, hg1, FlushedOn.sameGeom hg.symm hFl, hh1, ?_, ?_, ?_, hpath1, hPN⟩, hj1⟩
+  · rw [← hg.fatType]; exact hobj1.mem
+  · rw [← hg.fatType]; exact hobj1.file
+  · intro g hgm hkey
+    rcases hq1 g hgm hkey with hc | hc
+    · exact .inl hc
+    · exact .inr (hP g hgm hkey hc)
 
 /-- **A successful `close_file` of a file that was written to establishes `Kept`**: under the invariant (FAT copies
-identical), closing the handle `hd` of the open file `f` (written to) answers `Ok`, and the state after the call shows
-the flushed file — entry `f.entry`, chain `chainOf gh.G f.entry.cluster` — as an object of the directory `h` the file
-sat in, no handle left at its slot. -/
+identical, `RawOK`), closing the handle `hd` of the open file `f` (written to) answers `Ok`, and the state after the call
+shows the flushed file — entry `f.entry`, chain `chainOf gh.G f.entry.cluster` — as an object of the directory `h` the
+file sat in, no handle left at its slot. -/
 theorem close_kept {v0 : FatVolume} {s : Mgr} {gh : Ghost} (hI : VolInv s gh) (hm : Mirror gh.vol s.dev.disk)
+    (hraw : RawOK gh.vol.fatType s.dev.disk s.files)
     (hg : SameGeom v0 gh.vol) {hd i : Nat} {f : FileInfo} (hidx : s.files.findIdx? (·.rawFile = hd) = some i)
     (hf : s.files[i]? = some f) (hdirty : f.dirty = true) :
     (step s (.closeFile hd)).2.result = .ok .unit ∧
-    ∃ h gh1, (∃ o, o ∈ objects h (dirSlots gh.vol s.dev.disk gh.G h) ∧ spos o = fkey f) ∧ h ∈ dirIds gh.dirs ∧
-      Kept v0 f.entry (chainOf gh.G f.entry.cluster) h (step s (.closeFile hd)).1 gh1 ∧
-      ∀ g, g ∈ (step s (.closeFile hd)).1.files → fkey g ≠ fkey f := by
+    ∃ h, (∃ o, o ∈ objects h (dirSlots gh.vol s.dev.disk gh.G h) ∧ spos o = fkey f) ∧ h ∈ dirIds gh.dirs ∧
+      ∀ ys, PathOn gh.vol.fatType gh.dirs (dirSlots gh.vol s.dev.disk gh.G) 0 ys h →
+        (∀ y, y ∈ ys → sName y ≠ Sfn.thisDir ∧ sName y ≠ Sfn.parentDir) →
+        ∃ gh1, Kept v0 f.entry (chainOf gh.G f.entry.cluster) ys h (step s (.closeFile hd)).1 gh1 ∧
+          ∀ g, g ∈ (step s (.closeFile hd)).1.files → fkey g ≠ fkey f := by
   have hM := medX_of_med hI.med
   have hfm : f ∈ s.files := List.mem_of_getElem? hf
   obtain ⟨hres, hFl, _⟩ := close_step_flushed hI hidx hf hdirty
   refine ⟨hres, ?_⟩
-  obtain ⟨hst, hn0, hn5, hlfn, hplain, _⟩ := file_entry_facts hI hfm
   -- the abstract side
   obtain ⟨a, hA⟩ := AbsFs.abs_total hI
   obtain ⟨gh1, a1, hI1, hg1, hA1, hstep⟩ := AbsFs.fs_step_refines v0 hI hA hg (.closeFile hd) trivial
-  have hgg : SameGeom gh.vol gh1.vol := hg.symm.trans hg1
   rw [hres] at hstep
   have hstep' : closeFileS a hd a1 (.ok .unit) := by
     unfold Spec.AbsFs.absStep at hstep
@@ -124,7 +233,7 @@ theorem close_kept {v0 : FatVolume} {s : Mgr} {gh : Ghost} (hI : VolInv s gh) (h
   obtain ⟨m0, bytes, hsl0, hsl1, hfiles1, hids1⟩ := closeFileS_ok hstep' hfo (hrel.dirty.trans hdirty)
   obtain ⟨o, ho, hpo⟩ := hrel.slot
   obtain ⟨hoobj, _, _, _, _, _⟩ := AbsFs.open_file_object hM hfm hrel.dirMem ho hpo
-  refine ⟨af.dir, gh1, ⟨o, hoobj, hpo⟩, hrel.dirMem, ?_⟩
+  refine ⟨af.dir, ⟨o, hoobj, hpo⟩, hrel.dirMem, fun ys hPath hPN => ⟨gh1, ?_⟩⟩
   -- no handle is left at the slot
   have hnone : ∀ af', af' ∈ a1.files → af'.dir = af.dir → af'.idx = af.idx → False := by
     intro af' haf' h1 h2
@@ -147,68 +256,97 @@ theorem close_kept {v0 : FatVolume} {s : Mgr} {gh : Ghost} (hI : VolInv s gh) (h
     have hklt : k < (s.files.map fkey).length := by
       rw [List.length_map]; exact (List.getElem?_eq_some_iff.1 hfk).1
     exact hki ((List.getElem?_inj hklt hI.med.tree.filesDistinct).1 hkeys)
-  have hk1 : KeepsA a1 af.dir af.idx (storedMeta af.pm) bytes :=
-    ⟨by rw [hids1, hA.ids]; exact hrel.dirMem, hsl1, fun af' haf' h1 h2 => (hnone af' haf' h1 h2).elim⟩
-  have hh1 : af.dir ∈ dirIds gh1.dirs := by rw [← hA1.ids]; exact hk1.ids
-  -- the licence of the call names no FAT entry
-  obtain ⟨L, hSL⟩ := step_callOK hI hm (.closeFile hd) trivial
-  have hfat : L.fatClusters = [] := closeFile_licence_fat hSL.lic
-  have hwf : LicWF gh.vol L := licenceFor_wf hI hSL.lic
-  have hF : ∀ b i', ¬ Covers gh.vol L b i' →
-      ((step s (.closeFile hd)).1.dev.disk.get b).getD i' 0 = (s.dev.disk.get b).getD i' 0 := by
-    intro b i' hcov
-    rw [hSL.disk b]
-    exact allLicensed_frame hcov _ _ hSL.all
-  -- the directory's chain has only grown
-  have hpre : dirChain gh.vol gh.G af.dir <+: dirChain gh1.vol gh1.G af.dir := by
-    rw [dirChain_sameGeom hgg]
-    by_cases hfx : isFixedRoot gh.vol af.dir
-    · unfold dirChain; rw [if_pos hfx, if_pos hfx]; exact List.prefix_refl _
-    · have hf' : ¬ isFixedRoot gh1.vol af.dir := by unfold isFixedRoot at hfx ⊢; rw [hgg.fatType]; exact hfx
-      have hM1 := medX_of_med hI1.med
-      obtain ⟨m1, d1⟩ := dirChain_spec hM hrel.dirMem hfx
-      obtain ⟨m2, d2⟩ := dirChain_spec hM1 hh1 hf'
-      have c1 := med_chain hM m1
-      have c2 := med_chain hM1 m2
-      rw [headD_of_head? d1] at c1
-      rw [headD_of_head? d2] at c2
-      have c2' : Chain gh.vol (step s (.closeFile hd)).1.dev.disk (dirHead gh.vol af.dir) (chainOf gh1.G (dirHead gh.vol af.dir)) := by
-        have := ForestBase.chain_sameGeom hgg.symm c2
-        have hdh : dirHead gh1.vol af.dir = dirHead gh.vol af.dir := by
-          obtain ⟨x, y, hv⟩ := hgg
-          rw [hv]; rfl
-        rw [hdh] at this
-        exact this
-      have hdc1 : dirChain gh.vol gh.G af.dir = chainOf gh.G (dirHead gh.vol af.dir) := by unfold dirChain; rw [if_neg hfx]
-      have hdc2 : dirChain gh.vol gh1.G af.dir = chainOf gh1.G (dirHead gh.vol af.dir) := by unfold dirChain; rw [if_neg hfx]
-      rw [hdc1, hdc2]
-      refine chain_prefix c1 c2' fun c hc => ?_
-      have hcr : InRange gh.vol c := med_inRange hM m1 (List.dropLast_subset _ hc)
-      exact ForestBase.nextOf_congr rfl (fatRaw_of_frame hI.med.geom hwf hF hcr (by rw [hfat]; exact List.not_mem_nil))
-  -- the slot, with its new bytes, in its directory
-  have hxm1 : slotOf gh.vol.fatType f.entry ∈ dirSlots gh1.vol (step s (.closeFile hd)).1.dev.disk gh1.G af.dir := by
-    refine mem_dirSlots_at hgg (AbsFs.mem_of_beforeEnd_getElem? ho) hpo.symm ?_ hpre
-    show slice ((step s (.closeFile hd)).1.dev.disk.get f.entry.entryBlock) f.entry.entryOffset 32 = f.entry.serialize gh.vol.fatType
-    exact hFl.slot
-  obtain ⟨hsn, hfi, _, _, _⟩ := slotOf_fields gh.vol.fatType f.entry hst
-  have hobj1 : Obj (step s (.closeFile hd)).1 gh1 af.dir (slotOf gh.vol.fatType f.entry) ∧
-      (beforeEnd (dirSlots gh1.vol (step s (.closeFile hd)).1.dev.disk gh1.G af.dir))[af.idx]? = some (slotOf gh.vol.fatType f.entry) := by
-    refine obj_of_keepsA hI1 hA1 hk1 hxm1 (by rw [hfi]; exact hn0) (slotOf_keep _ _ hst hn5 hlfn) ?_ ?_
-    · rw [slotOf_isDir _ _ hst]; exact hplain
-    · rw [hsn, storedMeta_name, hrel.pm]; rfl
-  refine ⟨⟨hI1, (hgg.mirror _).2 hSL.mirror, hg1, FlushedOn.sameGeom hg.symm hFl, by rw [← hg.fatType]; exact hobj1.1⟩, ?_⟩
+  have hk1 : KeepsA a1 af.dir af.idx (storedMeta af.pm) bytes (fun _ => False) :=
+    ⟨by rw [hids1, hA.ids]; exact hrel.dirMem, hsl1, fun af' haf' h1 h2 => (hnone af' haf' h1 h2).elim, fun _ hF => hF.elim⟩
+  obtain ⟨hK1, hj1⟩ := establish_kept hI hm hraw hg hidx hf hdirty (.inr rfl) hFl hI1 hg1 hA1 hrel.dirMem ho hpo hrel.pm hk1
+    (fun _ _ _ hF => hF.elim) hPath hPN
+  refine ⟨hK1, ?_⟩
   -- no handle is left at the slot
   intro g hgm hkey
+  have hh1 : af.dir ∈ dirIds gh1.dirs := hK1.dir
   obtain ⟨ag, hag, hrelg⟩ := forall₂_right' hA1.files hgm
   obtain ⟨o', ho', hp'⟩ := hrelg.slot
   have hM1 := medX_of_med hI1.med
   obtain ⟨e1, e2⟩ := AbsFs.slot_unique hM1 hrelg.dirMem hh1 (AbsFs.mem_of_beforeEnd_getElem? ho')
-    (AbsFs.mem_of_beforeEnd_getElem? hobj1.2) (hp'.trans hkey)
+    (AbsFs.mem_of_beforeEnd_getElem? hj1) (hp'.trans hkey)
   subst e2
   rw [e1] at ho'
   have hnd := beforeEnd_nodup (dirSlots_pos_nodup hM1 hh1 (step s (.closeFile hd)).1.dev.disk)
   have hlt : ag.idx < (Spec.Volume.beforeEnd (dirSlots gh1.vol (step s (.closeFile hd)).1.dev.disk gh1.G af.dir)).length :=
     (List.getElem?_eq_some_iff.1 ho').1
-  exact hnone ag hag e1 ((List.getElem?_inj hlt hnd).1 (ho'.trans hobj1.2.symm))
+  exact hnone ag hag e1 ((List.getElem?_inj hlt hnd).1 (ho'.trans hj1.symm))
+
+/-- **A successful `flush_file` of a file that was written to establishes `Kept`** — with the handle left open: under the
+invariant, for a file that owns a cluster, flushing the handle `hd` of the open file `f` (written to) answers `Ok`, and
+the state after the call shows the flushed file as an object of the directory the file sat in; the handle (still marked
+as written to: the crate never clears that mark) has the flushed entry as its record. -/
+theorem flush_kept {v0 : FatVolume} {s : Mgr} {gh : Ghost} (hI : VolInv s gh) (hm : Mirror gh.vol s.dev.disk)
+    (hraw : RawOK gh.vol.fatType s.dev.disk s.files)
+    (hg : SameGeom v0 gh.vol) {hd i : Nat} {f : FileInfo} (hidx : s.files.findIdx? (·.rawFile = hd) = some i)
+    (hf : s.files[i]? = some f) (hdirty : f.dirty = true) (hcl : f.entry.cluster ≠ 0) :
+    (step s (.flush hd)).2.result = .ok .unit ∧
+    ∃ h, (∃ o, o ∈ objects h (dirSlots gh.vol s.dev.disk gh.G h) ∧ spos o = fkey f) ∧ h ∈ dirIds gh.dirs ∧
+      ∀ ys, PathOn gh.vol.fatType gh.dirs (dirSlots gh.vol s.dev.disk gh.G) 0 ys h →
+        (∀ y, y ∈ ys → sName y ≠ Sfn.thisDir ∧ sName y ≠ Sfn.parentDir) →
+        ∃ gh1, Kept v0 f.entry (chainOf gh.G f.entry.cluster) ys h (step s (.flush hd)).1 gh1 := by
+  have hM := medX_of_med hI.med
+  have hfm : f ∈ s.files := List.mem_of_getElem? hf
+  obtain ⟨hres, hFl, _⟩ := flush_step_flushed hI hidx hf hdirty
+  refine ⟨hres, ?_⟩
+  obtain ⟨a, hA⟩ := AbsFs.abs_total hI
+  obtain ⟨gh1, a1, hI1, hg1, hA1, hstep⟩ := AbsFs.fs_step_refines v0 hI hA hg (.flush hd) trivial
+  rw [hres] at hstep
+  have hstep' : (a1, Res.ok Payload.unit) = flushF a hd := by
+    unfold Spec.AbsFs.absStep at hstep
+    rw [if_neg (by rw [hA.locked, hI.unlocked]; exact Bool.false_ne_true)] at hstep
+    exact hstep
+  have hfidx : fileIdx a hd = some i := by
+    rw [AbsFs.fileIdx_abs hA hd]; exact hidx
+  obtain ⟨af, haf, hrel⟩ := AbsFs.forall₂_right hA.files hf
+  have hfo : fileOf a hd = some (i, af) := by
+    unfold fileOf
+    rw [hfidx]
+    dsimp only
+    rw [haf]
+    rfl
+  obtain ⟨m0, bytes, hsl0, hfl⟩ := flushF_ok hfo (hrel.dirty.trans hdirty) (congrArg Prod.snd hstep').symm
+  have ha1 : a1 = setSlot a af.dir af.idx (.file (storedMeta af.pm) bytes) := (congrArg Prod.fst hstep').trans hfl
+  obtain ⟨o, ho, hpo⟩ := hrel.slot
+  obtain ⟨hoobj, _, _, _, _, _⟩ := AbsFs.open_file_object hM hfm hrel.dirMem ho hpo
+  refine ⟨af.dir, ⟨o, hoobj, hpo⟩, hrel.dirMem, fun ys hPath hPN => ⟨gh1, ?_⟩⟩
+  -- the files of the state after the flush
+  have hfiles : (step s (.flush hd)).1.files = s.files := by
+    rw [MHoare.step_unlocked s _ hI.unlocked]
+    have hI0 := VolApi.volInv_resetLogs hI
+    obtain ⟨s1, hrun, hfs, _⟩ := (flush_callOK hI0 hm hd).2 i f hidx hf
+    show (runOp (.flush hd) (MHoare.resetLogs s)).2.files = s.files
+    rw [WriteSet.runOp_flush, hrun]
+    exact hfs
+  -- handles at the slot: only `f`
+  have honly : ∀ g, g ∈ s.files → fkey g = fkey f → g = f :=
+    fun g hgm hkey => AbsFs.eq_of_nodup_map fkey hI.med.tree.filesDistinct hgm hfm hkey
+  have hk1 : KeepsA a1 af.dir af.idx (storedMeta af.pm) bytes (fun pm => pm = Spec.AbsFs.view f.entry) := by
+    refine ⟨by rw [ha1]; show af.dir ∈ a.ids; rw [hA.ids]; exact hrel.dirMem, ?_, ?_, fun pm hp => by rw [hp, hrel.pm]⟩
+    · rw [ha1]
+      unfold setSlot put
+      dsimp only
+      rw [if_pos rfl, if_pos (List.getElem?_eq_some_iff.1 hsl0).1, List.getElem?_set_self (List.getElem?_eq_some_iff.1 hsl0).1]
+    · intro af' haf' h1 h2
+      rw [ha1] at haf'
+      have haf'' : af' ∈ a.files := haf'
+      obtain ⟨g, hgm, hrelg⟩ := forall₂_left hA.files haf''
+      obtain ⟨o', ho', hpo'⟩ := hrelg.slot
+      rw [h1, h2, ho] at ho'
+      injection ho' with ho'
+      subst ho'
+      have := honly g hgm (hpo'.symm.trans hpo)
+      subst this
+      exact .inr hrelg.pm
+  obtain ⟨hK1, _⟩ := establish_kept hI hm hraw hg hidx hf hdirty (.inl rfl) hFl hI1 hg1 hA1 hrel.dirMem ho hpo hrel.pm hk1
+    (fun g hgm hkey _ => by
+      rw [hfiles] at hgm
+      rw [honly g hgm hkey]
+      exact ⟨rfl, hcl⟩) hPath hPN
+  exact hK1
 
 end Sdmmc.Lemmas.Survive
